@@ -14,6 +14,7 @@ import (
 	"net/http"
 	"net/http/httptest"
 	"net/url"
+	"os"
 	"reflect"
 	"sort"
 	"strings"
@@ -571,13 +572,26 @@ func runC14(tier string, seed int64) *Outcome {
 			}
 		}
 	}
+	// the binary's own configuration of the profiling routes (flag / environment variable), if bin/check built it
+	if bin := os.Getenv("PRUNNER_BIN"); bin != "" {
+		tmp, _ := os.MkdirTemp(tmpRoot(), "pxc14-")
+		h := drv.RunProfilingBinaryCase(seed, bin, tmp)
+		os.RemoveAll(tmp)
+		res := &CaseResult{Idx: idx, Findings: h.Findings, Inconclusive: h.Inconclusive, Evaluations: h.Evaluations["C14"]}
+		for s := range h.Situations["C14"] {
+			res.Situations = append(res.Situations, s)
+		}
+		o.Results = append(o.Results, res)
+	} else {
+		o.Results = append(o.Results, &CaseResult{Idx: idx, Inconclusive: "PRUNNER_BIN not set (bin/check builds cmd/prunner from /repo)"})
+	}
 	return o
 }
 
 func init() {
 	register(&Check{
 		ID: "C14", Level: "exploration",
-		Rule:        "exhaustive product over: every route pattern discovered with chi.Walk on the real router (hook H3; the run is invalid if fewer than the six known API routes are found) x methods {GET,POST,PUT,PATCH,DELETE,HEAD,OPTIONS} x ~27 invalid credential classes (none, empty bearer, garbage, 2 / 4 segments, other secret, truncated / bit-flipped signature, payload modified after signing, alg none (3 spellings / signatures), HS384 / HS512 with the right secret, RS256 / ES256 headers, expired, not yet valid, basic auth, the secret itself, random single-character edits of a valid token, a token that another server instance with another secret accepted earlier in this process) x transports {Authorization header, cookie jwt, query ?jwt=} x profiling on/off x 3 secrets (16, 33, 100+ bytes incl. non-ASCII), against the real http.Handler of server.NewServer on a runner that holds a running, a waiting and a finished job with log output (job variables and logs large enough that every authenticated listing / detail / log response exceeds 64 KiB). Requests are built to be effective if accepted (schedule an existing pipeline, cancel the running job, read real logs). Oracle: status 401, body free of planted markers (job ids, pipeline / task names, variable values, log lines), runner state (jobs, flags, pipeline list) unchanged; /debug/* answers 404 with profiling off; positive control with a valid token via header and cookie; every judged invalid request is also repeated directly after the same request was answered for a valid token (header / cookie), so that state kept between requests (caches, sessions) cannot open a route; finally 6 clients with invalid credentials send effective requests while 6 pollers with a valid token are in flight (the decision about one request must not depend on another). Borderline classes (iat in the future, lower-case 'bearer') are sent and their outcome recorded but never judged. A situation is (method, pattern, registered?, credential family, transport, profiling)",
+		Rule:        "exhaustive product over: every route pattern discovered with chi.Walk on the real router (hook H3; the run is invalid if fewer than the six known API routes are found) x methods {GET,POST,PUT,PATCH,DELETE,HEAD,OPTIONS} x ~27 invalid credential classes (none, empty bearer, garbage, 2 / 4 segments, other secret, truncated / bit-flipped signature, payload modified after signing, alg none (3 spellings / signatures), HS384 / HS512 with the right secret, RS256 / ES256 headers, expired, not yet valid, basic auth, the secret itself, random single-character edits of a valid token, a token that another server instance with another secret accepted earlier in this process) x transports {Authorization header, cookie jwt, query ?jwt=} x profiling on/off x 3 secrets (16, 33, 100+ bytes incl. non-ASCII), against the real http.Handler of server.NewServer on a runner that holds a running, a waiting and a finished job with log output (job variables and logs large enough that every authenticated listing / detail / log response exceeds 64 KiB). Requests are built to be effective if accepted (schedule an existing pipeline, cancel the running job, read real logs). Oracle: status 401, body free of planted markers (job ids, pipeline / task names, variable values, log lines), runner state (jobs, flags, pipeline list) unchanged; /debug/* answers 404 with profiling off (also for the real binary started without the flag, with --enable-profiling=false and with PRUNNER_ENABLE_PROFILING=false / 0); positive control with a valid token via header and cookie; every judged invalid request is also repeated directly after the same request was answered for a valid token (header / cookie), so that state kept between requests (caches, sessions) cannot open a route; finally 6 clients with invalid credentials send effective requests while 6 pollers with a valid token are in flight (the decision about one request must not depend on another). Borderline classes (iat in the future, lower-case 'bearer') are sent and their outcome recorded but never judged. A situation is (method, pattern, registered?, credential family, transport, profiling)",
 		Assumptions: []string{"the listener's bind address and TLS are outside the handler and not examined"},
 		Custom:      runC14,
 		MinDistinct: 200,
